@@ -4,7 +4,7 @@ VIEW View
 CONSTANTS
   MaxDepth = 1
   LawDepth = 0
-  SeedBodies <- Bodies
+  SeedBodies <- MapBodies
   SeedLayers <- MapLayers
   SeedWraps <- PlainWrap
 ACTION_CONSTRAINT MEmit
